@@ -201,7 +201,11 @@ class Writer:
                     sub = {}
                     for p, a in zip(params, e.args):
                         sub[p] = ast.parse(self._subst_text(a, env), mode='eval').body
-                    return self.func(m, sub)
+                    r = self.func(m, sub)
+                    # attributes the callee writes are no longer known in the caller
+                    for attr in self._written_attrs(m):
+                        env.pop('self.' + attr, None)
+                    return r
             if name == 'encode' and not e.args:
                 return Seq([('RAW', self.u(e.func.value, env, mod) + '.encode()')])
             return None
@@ -216,6 +220,28 @@ class Writer:
         if isinstance(e, ast.Subscript):
             return Seq([('RAW', self.u(e, env, mod))])
         return None
+
+    def _written_attrs(self, fn, seen=None):
+        seen = seen if seen is not None else set()
+        if fn.qn in seen:
+            return set()
+        seen.add(fn.qn)
+        out = set()
+        for n in ast.walk(fn.node):
+            tg = []
+            if isinstance(n, ast.Assign):
+                tg = n.targets
+            elif isinstance(n, ast.AugAssign):
+                tg = [n.target]
+            for t in tg:
+                for el in (t.elts if isinstance(t, ast.Tuple) else [t]):
+                    if isinstance(el, ast.Attribute) and U(el.value) == 'self':
+                        out.add(el.attr)
+            if isinstance(n, ast.Call) and isinstance(n.func, ast.Attribute) and U(n.func.value) == 'self':
+                m = self.cx.idx.find_method(self.cls, n.func.attr)
+                if m is not None:
+                    out |= self._written_attrs(m, seen)
+        return out
 
     def _subst_text(self, e, env):
         from .sym import substitute
@@ -292,6 +318,10 @@ class Writer:
                 for k, v in inner.items():
                     if isinstance(v, Seq) and v and isinstance(env.get(k), Seq):
                         env[k] = Seq(env[k] + [('REP', v, self.u(s.iter, env, mod), U(s.target))])
+                # attributes / locals changed inside the loop body are unknown afterwards
+                for k in list(env):
+                    if isinstance(env[k], ast.AST) and (k not in inner or not isinstance(inner[k], ast.AST) or ast.dump(inner[k]) != ast.dump(env[k])):
+                        env.pop(k)
                 continue
             if isinstance(s, ast.If):
                 cond = self.u(s.test, env, mod)
@@ -314,7 +344,14 @@ class Writer:
                             if isinstance(a, Seq) and isinstance(b, Seq) and a[:n] == base and b[:n] == base:
                                 env[k] = Seq(base + [('ALT', cond, Seq(a[n:]), Seq(b[n:]))])
                             else:
-                                env[k] = Seq([('ALT', cond, a if isinstance(a, Seq) else Seq(), b if isinstance(b, Seq) else Seq())])
+                                # a name that is bytes-valued on one branch and an (unmodified) expression on the other
+                                def as_seq(v, name):
+                                    if isinstance(v, Seq):
+                                        return v
+                                    if isinstance(v, ast.AST):
+                                        return Seq([('RAW', self.u(v, env, mod))])
+                                    return Seq()
+                                env[k] = Seq([('ALT', cond, as_seq(a, k), as_seq(b, k))])
                     else:
                         if r1 and not r2:
                             if b is not None:
@@ -332,6 +369,9 @@ class Writer:
                             env[k] = a
                         else:
                             env.pop(k, None)
+                for k in list(env):
+                    if k not in e1 and k not in e2:
+                        env.pop(k)
                 if r1 and r2:
                     return True
                 continue
